@@ -41,6 +41,16 @@ CHECKS["C03"] = dict(
    note="sequential calls; stale completion in Half-Open may decide or not; order of several breakers as reported by the manager; bounded scope for the exhaustive part",
    technique="TLA+ spec Breaker.tla; TLC model checking; TLC-generated behaviours replayed into the code; TLC trace validation of recorded executions",
    ref="DESIGN.md §6 C03")
+CHECKS["C08"] = dict(
+   text="The exact integer model of the warm-up token bucket + reject check (WarmUp.tla, half-second granularity) is model-checked by TLC against the envelope clauses of the property (WarmEnv.tla: <= q per window, >= floor(q/c)-1 when saturated, cold start <= floor(q/c)+1, non-decreasing under saturation, >= q-1 after 2p+2 saturated seconds, cold again after 2p idle seconds) over a (q,c,p) grid and all demand profiles of the bounded model (random profiles for the largest parameters); TLC-generated demand profiles and random on/off profiles are expanded to single-token requests on 1..20 ms grids, run through flow::load_rules + EntryBuilder on the real code under the virtual clock, and TLC judges every recorded history against the envelope second by second",
+   note="tolerance 1 token (calibrated by the refinement check); saturated = q offered in each half second; the exact trajectory is not asserted on the code, only the envelope (so a different but conforming warm-up algorithm is accepted)",
+   technique="TLA+ specs WarmUp.tla / WarmEnv.tla; TLC refinement check over a parameter grid; TLC-generated profiles replayed into the code; TLC trace validation of recorded executions",
+   ref="DESIGN.md §6 C08")
+CHECKS["C09"] = dict(
+   text="System rules are part of Entry.tla: TLC model-checks inbound/outbound histories with QPS, concurrency, RT, load and CPU rules (both strategies) and injected load/CPU readings; TLC behaviours and random histories run through system::load_rules + EntryBuilder with the observed QPS / concurrency / RT / best completion rate / min RT produced by real inbound traffic on the global inbound node; TLC validates every decision (rejected iff some rule trips: >= for QPS/concurrency/RT, > for load/CPU, BBR guard), the block type, that the reported rule trips and that its snapshot is its own observed value, and that outbound entries are never affected",
+   note="sequential calls; dyadic load/CPU readings (exact in f32/f64); any tripping rule may be reported; bounded scope for the exhaustive part",
+   technique="TLA+ spec Entry.tla (system part); TLC model checking; TLC-generated behaviours replayed into the code; TLC trace validation of recorded executions",
+   ref="DESIGN.md §6 C09")
 NOT_APPLICABLE = {}
 
 def main():
